@@ -1,6 +1,6 @@
 """C16  Embedded transformer equals transforming afterwards; transformer variants agree."""
 from hypothesis import strategies as st
-from vlib.harness import Phase, Violation
+from vlib.harness import Phase, Violation, blame_lark
 from vlib import gram, gramgen
 from lark import Lark, Tree, Token, Transformer, v_args, Discard
 from lark.visitors import Transformer_InPlace, Transformer_NonRecursive, Transformer_InPlaceRecursive
@@ -61,6 +61,7 @@ def names_of(g):
     return sorted(rules), toks
 
 
+@blame_lark
 def check(case, ctx):
     if case['lib'] is not None:
         name, g, rules, toks, _alpha = LIB[case['lib']]
@@ -174,6 +175,7 @@ def depth_of(t):
     return 0 if t[0] == 'T' else 1 + max([depth_of(c) for c in t[2]] or [0])
 
 
+@blame_lark
 def check_variants(case, ctx):
     spec = case['tree']; behaviours = case['behaviours']     # name -> 'wrap' | 'discard' | 'count' | None
     if behaviours.get(spec[1]) == 'discard':
